@@ -1,15 +1,885 @@
 package c08
 
+// (b) generated programs: every statement kind nested in the others, all
+// string spellings, comments before/after tokens, container sizes around the
+// multi-line thresholds, blank lines, separators, layout and keyword case.
+// Programs terminate by construction (bounded ranges, condition loops with a
+// private counter incremented at the loop head, functions call only functions
+// defined before them) and are deterministic, so their behaviour can be compared.
+
 import (
+	"fmt"
+	"strings"
 	"testing"
 
 	"pgregory.net/rapid"
 
 	"verif/internal/hx"
+	"verif/internal/lang"
 )
+
+// X is the generator's expression tree (surface decoration is drawn while printing).
+type X struct {
+	K string // num str id list map call idx dot func  or an operator node name
+	S string // text of num / id / field, content of str
+	A []*X
+	F string // func literal: complete text
+}
+
+func (x *X) binary() bool { _, ok := lang.Bin(x.K); return ok && len(x.A) == 2 }
+func (x *X) prefix() bool {
+	return len(x.A) == 1 && (x.K == "not" || x.K == "minus" || x.K == "plus")
+}
+func (x *X) level() int {
+	if x.binary() {
+		o, _ := lang.Bin(x.K)
+		return o.Level
+	}
+	if x.prefix() {
+		if x.K == "not" {
+			return lang.LvNot
+		}
+		return lang.LvPrefix
+	}
+	return lang.LvAtom
+}
+
+type pg struct {
+	rt      *rapid.T
+	b       strings.Builder
+	nfunc   int
+	nloop   int
+	budget  int
+	funcs   []string // callable names, arity 1
+	imports map[string]string
+	noRaw   bool // open finding: raw strings are printed quoted
+	noTD    bool // open finding: a * (b / c)
+	cmRate  int  // 0 = no inner comments, else 1 in cmRate optional places gets one
+	plain   bool // no layout noise at all
+}
+
+type sctx struct {
+	depth  int
+	inLoop bool
+	inFunc bool
+	top    bool
+}
+
+func (g *pg) pick(n int, l string) int { return rapid.IntRange(0, n-1).Draw(g.rt, l) }
+// chance is true in 1 of n draws (the largest value, so that shrinking removes the decoration).
+func (g *pg) chance(n int, l string) bool {
+	return n > 0 && rapid.IntRange(0, n-1).Draw(g.rt, l) == n-1
+}
+func (g *pg) oneOf(l string, s ...string) string { return s[g.pick(len(s), l)] }
+
+// ---------------------------------------------------------------------------
+// strings
+
+var strPieces = []string{"", "a", "abc", " ", "x y", "é", "日本", "\"", "'", "\\", "\\\\", "\n", "\t", "\r", "{{", "}}", "{{a}}", "{{1+2}}", "{{ s }}", "{", "}", "#", "/*", "*/", "r\"", "\\n", "\\\"", "$", "%v", "\x01", "a.b", "[a-c]+", ";", ")"}
+
+func (g *pg) strContent() string {
+	n := g.pick(4, "sn")
+	var sb strings.Builder
+	for i := 0; i < n; i++ {
+		sb.WriteString(strPieces[g.pick(len(strPieces), "sp")])
+	}
+	return sb.String()
+}
+
+// quote spells content as an ECAL string literal in a drawn style.
+func (g *pg) quote(s string) string {
+	style := g.pick(6, "qstyle") // 0-2 double, 3 single, 4 raw double, 5 raw single
+	if style >= 4 {
+		if g.noRaw {
+			hx.E.Exclude("known.C08-raw-string-printed-quoted")
+			style = 0
+		} else if style == 4 && !strings.Contains(s, `"`) {
+			return `r"` + s + `"`
+		} else if style == 5 && !strings.Contains(s, `'`) {
+			return `r'` + s + `'`
+		} else {
+			style = 0
+		}
+	}
+	if style == 3 && !strings.ContainsAny(s, "'") {
+		var sb strings.Builder
+		sb.WriteByte('\'')
+		for _, r := range s {
+			switch r {
+			case '\\':
+				sb.WriteString(`\\`)
+			case '\n':
+				sb.WriteString(`\n`)
+			case '\t':
+				sb.WriteString(`\t`)
+			case '\r':
+				sb.WriteString(`\r`)
+			case '\x01':
+				sb.WriteString(`\x01`)
+			case '"':
+				if g.chance(2, "esq") {
+					sb.WriteString(`\"`)
+				} else {
+					sb.WriteString(`"`)
+				}
+			default:
+				sb.WriteRune(r)
+			}
+		}
+		sb.WriteByte('\'')
+		return sb.String()
+	}
+	var sb strings.Builder
+	sb.WriteByte('"')
+	for _, r := range s {
+		switch r {
+		case '\\':
+			sb.WriteString(`\\`)
+		case '"':
+			sb.WriteString(`\"`)
+		case '\n':
+			sb.WriteString(`\n`)
+		case '\t':
+			sb.WriteString(`\t`)
+		case '\r':
+			sb.WriteString(`\r`)
+		case '\x01':
+			sb.WriteString(g.oneOf("ctl", `\x01`, `\u0001`, `\001`))
+		case 'é':
+			sb.WriteString(g.oneOf("uni", "é", `\u00e9`, `\xc3\xa9`))
+		default:
+			sb.WriteRune(r)
+		}
+	}
+	sb.WriteByte('"')
+	return sb.String()
+}
+
+// ---------------------------------------------------------------------------
+// expressions
+
+var numLits = []string{"0", "1", "2", "3", "7", "10", "0.5", "2.50", "1e+3", "1.5e+01", "123456789", "007", "1e+308"}
+
+func (g *pg) num() *X { return &X{K: "num", S: numLits[g.pick(len(numLits), "nl")]} }
+func (g *pg) id(names ...string) *X {
+	return &X{K: "id", S: names[g.pick(len(names), "idn")]}
+}
+
+// exprN/B/S/L generate expressions of (intended) type number/bool/string/list.
+func (g *pg) exprN(d int) *X {
+	if d <= 0 || g.chance(3, "nleaf") {
+		switch g.pick(8, "nk") {
+		case 1, 2:
+			return g.id("a", "b", "c")
+		case 3:
+			return &X{K: "idx", A: []*X{g.id("l"), g.exprN(0)}}
+		case 4:
+			return g.path()
+		case 5:
+			if len(g.funcs) > 0 {
+				return &X{K: "call", A: []*X{{K: "id", S: g.funcs[g.pick(len(g.funcs), "fn")]}, g.exprN(d - 1)}}
+			}
+			return g.num()
+		case 6:
+			return &X{K: "call", A: []*X{{K: "id", S: "len"}, g.exprL(d - 1)}}
+		}
+		return g.num()
+	}
+	if g.chance(6, "npre") {
+		return &X{K: g.oneOf("pm", "minus", "plus"), A: []*X{g.exprN(d - 1)}}
+	}
+	op := g.oneOf("aop", "plus", "minus", "times", "div", "divint", "modint", "plus", "minus", "times")
+	l, r := g.exprN(d-1), g.exprN(d-1)
+	if op == "div" || op == "divint" || op == "modint" {
+		if g.chance(2, "simplediv") {
+			r = &X{K: "num", S: g.oneOf("dv", "1", "2", "3", "7")}
+		}
+	}
+	if g.noTD && op == "times" && r.K == "div" && r.binary() {
+		hx.E.Exclude("known.C08-times-div-brackets")
+		r.K = "divint"
+	}
+	return &X{K: op, A: []*X{l, r}}
+}
+
+func (g *pg) exprS(d int) *X {
+	switch g.pick(6, "sk") {
+	case 0:
+		return g.id("s")
+	case 1:
+		if d > 0 {
+			return &X{K: "plus", A: []*X{g.exprS(d - 1), g.exprS(d - 1)}}
+		}
+	case 2:
+		return &X{K: "idx", A: []*X{g.id("m"), {K: "str", S: "k"}}}
+	}
+	return &X{K: "str", S: g.strContent()}
+}
+
+func (g *pg) exprL(d int) *X {
+	switch g.pick(5, "lk") {
+	case 0, 1:
+		return g.id("l")
+	case 2:
+		return &X{K: "dot", S: "p", A: []*X{{K: "dot", S: "o", A: []*X{g.id("m")}}}}
+	}
+	n := g.pick(7, "ln")
+	x := &X{K: "list"}
+	for i := 0; i < n; i++ {
+		x.A = append(x.A, g.exprAny(d-1))
+	}
+	return x
+}
+
+func (g *pg) exprM(d int) *X {
+	n := g.pick(5, "mn")
+	x := &X{K: "map"}
+	for i := 0; i < n; i++ {
+		var k *X
+		switch g.pick(5, "mk") {
+		case 0:
+			k = g.num()
+		case 1:
+			k = g.exprS(0)
+		default:
+			k = &X{K: "str", S: g.oneOf("mkey", "k", "o", "key", "a b", "x")}
+		}
+		x.A = append(x.A, k, g.exprAny(d-1))
+	}
+	return x
+}
+
+func (g *pg) path() *X {
+	// m.o.p[1].q  |  m.k  |  m["k"]  |  o.f(1)  |  m.o.p[0]  |  lib-free access chains
+	switch g.pick(5, "pk") {
+	case 0:
+		return &X{K: "dot", S: "q", A: []*X{{K: "idx", A: []*X{{K: "dot", S: "p", A: []*X{{K: "dot", S: "o", A: []*X{g.id("m")}}}}, {K: "num", S: "1"}}}}}
+	case 1:
+		return &X{K: "dot", S: "k", A: []*X{g.id("m")}}
+	case 2:
+		return &X{K: "idx", A: []*X{g.id("m"), {K: "str", S: "k"}}}
+	case 3:
+		return &X{K: "call", A: []*X{{K: "dot", S: "f", A: []*X{g.id("o")}}, g.exprN(0)}}
+	}
+	return &X{K: "idx", A: []*X{{K: "dot", S: "p", A: []*X{{K: "dot", S: "o", A: []*X{g.id("m")}}}}, {K: "num", S: "0"}}}
+}
+
+func (g *pg) exprB(d int) *X {
+	if d <= 0 || g.chance(4, "bleaf") {
+		switch g.pick(4, "bk") {
+		case 0:
+			return &X{K: "true"}
+		case 1:
+			return &X{K: "false"}
+		case 2:
+			return g.id("tt", "ff")
+		}
+		return &X{K: g.oneOf("cop0", "<", ">", "==", "!="), A: []*X{g.exprN(0), g.exprN(0)}}
+	}
+	switch g.pick(9, "bop") {
+	case 0:
+		return &X{K: "not", A: []*X{g.exprB(d - 1)}}
+	case 1, 2, 3:
+		return &X{K: g.oneOf("ao", "and", "or"), A: []*X{g.exprB(d - 1), g.exprB(d - 1)}}
+	case 4:
+		return &X{K: g.oneOf("cop", ">=", "<=", ">", "<"), A: []*X{g.exprN(d - 1), g.exprN(d - 1)}}
+	case 5:
+		if g.chance(2, "eqb") {
+			return &X{K: g.oneOf("eop", "==", "!="), A: []*X{g.exprB(d - 1), g.exprB(d - 1)}}
+		}
+		return &X{K: g.oneOf("eop", "==", "!="), A: []*X{g.exprN(d - 1), g.exprN(d - 1)}}
+	case 6:
+		return &X{K: g.oneOf("sop", "like", "hasprefix", "hassuffix"), A: []*X{g.exprS(d - 1), g.exprS(d - 1)}}
+	case 7:
+		return &X{K: g.oneOf("mop", "in", "notin"), A: []*X{g.exprN(d - 1), g.exprL(d - 1)}}
+	}
+	// ill-typed on purpose: a comparison as an arithmetic operand etc.
+	return &X{K: g.oneOf("mix", "==", "and", "<"), A: []*X{g.exprAny(d - 1), g.exprAny(d - 1)}}
+}
+
+func (g *pg) exprAny(d int) *X {
+	switch g.pick(12, "anyk") {
+	case 0, 1, 2:
+		return g.exprN(d)
+	case 3, 4:
+		return g.exprB(d)
+	case 5, 6:
+		return g.exprS(d)
+	case 7:
+		if d > 0 {
+			return g.exprL(d)
+		}
+	case 8:
+		if d > 0 {
+			return g.exprM(d)
+		}
+	case 9:
+		return &X{K: "null"}
+	case 10:
+		if d > 0 && g.budget > 4 {
+			return &X{K: "func", F: g.funcLiteral(sctx{depth: 3})}
+		}
+	}
+	return g.exprN(d)
+}
+
+// ---------------------------------------------------------------------------
+// printing expressions with surface decoration
+
+var kwAlt = map[string][]string{
+	"and": {"and", "AND", "And"}, "or": {"or", "OR"}, "not": {"not", "NOT", "Not"},
+	"like": {"like", "LIKE"}, "hasprefix": {"hasprefix", "hasPrefix", "HASPREFIX"}, "hassuffix": {"hassuffix", "hasSuffix"},
+	"in": {"in", "IN"}, "notin": {"notin", "NOTIN", "notIn"},
+	"true": {"true", "TRUE", "True"}, "false": {"false", "FALSE"}, "null": {"null", "NULL", "Null"},
+}
+
+func (g *pg) kw(k string) string {
+	if g.plain || !g.chance(5, "kwcase") {
+		return k
+	}
+	if alts, ok := kwAlt[k]; ok {
+		return alts[g.pick(len(alts), "kwalt")]
+	}
+	return strings.ToUpper(k)
+}
+
+var cmTexts = []string{"c", " note ", "x := 1", "a # b", "\"q", " two\n   lines ", "*", "/ *", "TODO: é"}
+
+// blockCm returns an inline block comment (with surrounding spaces) or "".
+func (g *pg) blockCm(l string) string {
+	if g.cmRate == 0 || !g.chance(g.cmRate, "cm."+l) {
+		return ""
+	}
+	return " /*" + cmTexts[g.pick(len(cmTexts), "cmt")] + "*/ "
+}
+
+// lineCm returns a line comment which ends the line (the text continues on the next line) or "".
+func (g *pg) lineCm(l string) string {
+	if g.cmRate == 0 || !g.chance(g.cmRate*2, "lcm."+l) {
+		return ""
+	}
+	return " #" + g.oneOf("lcmt", " c", "c", " x := 1", " /* c */", " \"q", "") + "\n"
+}
+
+// sp is optional layout between two tokens where a line break is harmless.
+func (g *pg) sp(l string) string {
+	if g.plain {
+		return " "
+	}
+	switch g.pick(14, "sp."+l) {
+	case 10:
+		return "\n"
+	case 11:
+		return "  "
+	case 12:
+		return "\n\n  "
+	case 13:
+		return "\t"
+	}
+	return " "
+}
+
+// tight is like sp but may also be empty.
+func (g *pg) tight(l string) string {
+	if g.plain {
+		return ""
+	}
+	switch g.pick(8, "tg."+l) {
+	case 6:
+		return " "
+	case 7:
+		return "\n"
+	}
+	return ""
+}
+
+func (g *pg) src(x *X) string {
+	var sb strings.Builder
+	g.write(&sb, x, false)
+	return sb.String()
+}
+
+func (g *pg) writeParen(sb *strings.Builder, x *X, need bool) {
+	if need || (!g.plain && g.chance(9, "redundant")) {
+		sb.WriteString("(" + g.tight("lp") + g.blockCm("lp"))
+		g.write(sb, x, false)
+		sb.WriteString(g.lineCm("rp") + g.tight("rp") + ")")
+		return
+	}
+	g.write(sb, x, false)
+}
+
+// write prints x; sameLine forbids anything that would put a line break before the first token.
+func (g *pg) write(sb *strings.Builder, x *X, sameLine bool) {
+	if !sameLine {
+		sb.WriteString(g.blockCm("pre"))
+	}
+	switch {
+	case x.binary():
+		lv := x.level()
+		l, r := x.A[0], x.A[1]
+		g.writeParen(sb, l, l.level() < lv)
+		o, _ := lang.Bin(x.K)
+		sym := o.Sym
+		if _, ok := kwAlt[x.K]; ok {
+			sym = g.kw(x.K)
+		}
+		sb.WriteString(g.lineCm("bop") + g.sp("bop1") + g.blockCm("bop") + sym + g.lineCm("aop") + g.sp("bop2"))
+		// a prefix operator needs no parentheses on the right unless it binds weaker than an operator which may follow
+		g.writeParen(sb, r, (r.binary() && r.level() <= lv) || (r.prefix() && r.level() < lv))
+	case x.prefix():
+		c := x.A[0]
+		if x.K == "not" {
+			sb.WriteString(g.kw("not") + g.sp("not"))
+			g.writeParen(sb, c, c.level() < lang.LvNot)
+		} else {
+			sb.WriteString(map[string]string{"minus": "-", "plus": "+"}[x.K])
+			if c.prefix() {
+				sb.WriteString(" ")
+			} else {
+				sb.WriteString(g.tight("pre"))
+			}
+			g.writeParen(sb, c, c.level() < lang.LvPrefix)
+		}
+	case x.K == "num" || x.K == "id":
+		sb.WriteString(x.S)
+	case x.K == "str":
+		sb.WriteString(g.quote(x.S))
+	case x.K == "true" || x.K == "false" || x.K == "null":
+		sb.WriteString(g.kw(x.K))
+	case x.K == "list":
+		sb.WriteString("[" + g.tight("l0"))
+		for i, c := range x.A {
+			if i > 0 {
+				sb.WriteString(g.oneOf("lsep", ", ", ",", ", ", " ,\n", ",\n    ") + g.lineCm("lsep"))
+			}
+			g.write(sb, c, false)
+		}
+		if len(x.A) > 0 && !g.plain && g.chance(10, "trailcomma") {
+			sb.WriteString(",")
+		}
+		sb.WriteString(g.lineCm("l1") + g.tight("l1") + "]")
+	case x.K == "map":
+		sb.WriteString("{" + g.tight("m0"))
+		for i := 0; i+1 < len(x.A); i += 2 {
+			if i > 0 {
+				sb.WriteString(g.oneOf("msep", ", ", ",", ",\n", ",\n    ") + g.lineCm("msep"))
+			}
+			g.write(sb, x.A[i], false)
+			sb.WriteString(g.oneOf("kvsep", " : ", ":", ": ", " :\n") + g.blockCm("kv"))
+			g.write(sb, x.A[i+1], false)
+		}
+		sb.WriteString(g.lineCm("m1") + g.tight("m1") + "}")
+	case x.K == "call":
+		g.write(sb, x.A[0], sameLine)
+		sb.WriteString("(" + g.tight("c0"))
+		for i, c := range x.A[1:] {
+			if i > 0 {
+				sb.WriteString(g.oneOf("asep", ", ", ",", ",\n  ") + g.lineCm("asep"))
+			}
+			g.write(sb, c, false)
+		}
+		sb.WriteString(g.lineCm("c1") + g.tight("c1") + ")")
+	case x.K == "idx":
+		g.write(sb, x.A[0], sameLine)
+		sb.WriteString("[" + g.tight("i0"))
+		g.write(sb, x.A[1], false)
+		sb.WriteString(g.tight("i1") + "]")
+	case x.K == "dot":
+		g.write(sb, x.A[0], sameLine)
+		sb.WriteString("." + x.S)
+	case x.K == "func":
+		sb.WriteString(x.F)
+	default:
+		panic("c08 gen: cannot print " + x.K)
+	}
+	sb.WriteString(g.blockCm("post"))
+}
+
+// ---------------------------------------------------------------------------
+// statements
+
+func (g *pg) ind(n int) string {
+	if g.plain {
+		return strings.Repeat("    ", n)
+	}
+	switch g.pick(6, "ind") {
+	case 3:
+		return ""
+	case 4:
+		return strings.Repeat("\t", n)
+	case 5:
+		return strings.Repeat("  ", n)
+	}
+	return strings.Repeat("    ", n)
+}
+
+// stmtSep ends a statement: newline(s), a trailing line comment, or a semicolon.
+func (g *pg) stmtSep() string {
+	if g.plain {
+		return "\n"
+	}
+	switch g.pick(16, "sep") {
+	case 8:
+		return "\n\n"
+	case 9:
+		return "\n\n\n\n"
+	case 10:
+		return " ; "
+	case 11:
+		return ";"
+	case 12:
+		return " # " + g.oneOf("tcm", "done", "x", "é /* */", "") + "\n"
+	case 13:
+		return "\n" + g.leadCm()
+	case 14:
+		return " \t\n"
+	case 15:
+		return ";\n"
+	}
+	return "\n"
+}
+
+// leadCm is a comment on lines of its own before a statement.
+func (g *pg) leadCm() string {
+	switch g.pick(5, "lead") {
+	case 0:
+		return "/* " + g.oneOf("lc", "lead", "a\n b\n", "\n * x\n * y\n ") + " */\n"
+	case 1:
+		return "# line\n"
+	case 2:
+		return "\n/* c */\n\n"
+	case 3:
+		return "  /*c*/ "
+	}
+	return "# a\n# b\n"
+}
+
+func (g *pg) open() string { // " {" + newline
+	if g.plain {
+		return " {\n"
+	}
+	return g.oneOf("open", " {\n", " {\n", "{\n", "\n{\n", " { ", " {"+g.lineCmAlways()) // the comment after { belongs to no node
+}
+
+func (g *pg) lineCmAlways() string {
+	if g.cmRate == 0 {
+		return "\n"
+	}
+	return " # c\n"
+}
+
+func (g *pg) block(c sctx, max int) string {
+	var sb strings.Builder
+	n := g.pick(max+1, "nst")
+	inner := c
+	inner.depth++
+	inner.top = false
+	for i := 0; i < n && g.budget > 0; i++ {
+		sb.WriteString(g.ind(inner.depth))
+		sb.WriteString(g.stmt(inner))
+		sb.WriteString(g.stmtSep())
+	}
+	s := sb.String()
+	// the last separator must not be a semicolon directly before the closing brace? (allowed) - keep it
+	return s
+}
+
+func (g *pg) body(c sctx, max int) string {
+	return g.open() + g.block(c, max) + g.ind(c.depth) + "}"
+}
+
+func (g *pg) funcLiteral(c sctx) string {
+	g.budget -= 2
+	params := g.oneOf("fparams", "()", "(x)", "(x, y)", "(x, y=1)", "(x=[1,2,3,4,5], y=\"s\")", "( x ,y = 1+2 )", "(x, y={\"k\":1,\"l\":2,\"n\":3})")
+	fc := c
+	fc.inFunc, fc.inLoop = true, false
+	return g.kw("func") + g.oneOf("fsp", " ", "") + params + g.body(fc, 3)
+}
+
+func (g *pg) recStmt(x *X) string {
+	return "t.rec(" + g.src(x) + ")"
+}
+
+func (g *pg) stmt(c sctx) string {
+	g.budget--
+	k := g.pick(30, "stmt")
+	if c.depth >= 3 && k >= 10 && k <= 19 {
+		k = k % 5
+	}
+	switch k {
+	case 0, 1, 2:
+		return g.recStmt(g.exprAny(3))
+	case 3:
+		return g.id("a", "b", "c").S + g.oneOf("asg", " := ", ":=", " :=\n  ") + g.src(g.exprN(3))
+	case 4:
+		return g.kw("let") + " " + g.oneOf("letv", "a", "x", "y") + " := " + g.src(g.exprAny(2))
+	case 5:
+		return g.oneOf("let?", "", "let ") + "[" + g.oneOf("mv", "a, b", "x,y", "a ,b, c") + "] := " + g.src(&X{K: "list", A: []*X{g.exprN(1), g.exprN(1), g.exprN(1)}})
+	case 6:
+		tgt := g.oneOf("ptgt", "m.k", "l[0]", "m.o.p[1].q", "m[\"k\"]", "m.o.p[0]", "o.v", "l[len(l) - 1]")
+		return tgt + " := " + g.src(g.exprN(2))
+	case 7:
+		return g.oneOf("tb", "tt", "ff") + " := " + g.src(g.exprB(3))
+	case 8:
+		return "s := " + g.src(g.exprS(2))
+	case 9:
+		// container sizes around the multi-line thresholds
+		if g.chance(2, "lm") {
+			return g.oneOf("cv", "x", "l") + " := " + g.src(g.exprL(2))
+		}
+		return "x := " + g.src(g.exprM(2))
+	case 10, 11: // if / elif / else
+		var sb strings.Builder
+		sb.WriteString(g.kw("if") + " " + g.srcGuard(g.exprB(2)) + g.body(c, 3))
+		for n := g.pick(3, "nelif"); n > 0; n-- {
+			sb.WriteString(g.oneOf("elifsp", " ", "\n", " "+g.blockCm("elif")) + g.kw("elif") + " " + g.srcGuard(g.exprB(2)) + g.body(c, 2))
+		}
+		if g.chance(2, "else") {
+			sb.WriteString(g.oneOf("elsesp", " ", "\n", "") + g.kw("else") + g.body(c, 2))
+		}
+		return sb.String()
+	case 12: // condition loop with a private counter incremented at the head
+		g.nloop++
+		w := fmt.Sprintf("w%d", g.nloop)
+		lc := c
+		lc.inLoop = true
+		init := w + " := 0"
+		if c.inFunc {
+			init = "let " + w + " := 0"
+		}
+		cond := &X{K: "<", A: []*X{{K: "id", S: w}, {K: "num", S: fmt.Sprint(1 + g.pick(3, "wn"))}}}
+		var cx *X = cond
+		if g.chance(3, "wand") {
+			cx = &X{K: "and", A: []*X{cond, g.exprB(1)}}
+		}
+		return init + "\n" + g.ind(c.depth) + g.kw("for") + " " + g.srcGuard(cx) + g.open() +
+			g.ind(c.depth+1) + w + " := " + w + " + 1\n" + g.block(lc, 3) + g.ind(c.depth) + "}"
+	case 13, 14: // for ... in
+		lc := c
+		lc.inLoop = true
+		var head string
+		switch g.pick(5, "forin") {
+		case 0:
+			head = "i " + g.kw("in") + " range(" + g.oneOf("rng", "2", "0, 2", "1, 3", "3, 1, -1", "0, 4, 2", "2, 2") + ")"
+		case 1:
+			head = "i " + g.kw("in") + " " + g.srcGuard(g.exprL(1))
+		case 2:
+			head = "[k, v] in " + g.oneOf("fm", "m", "{\"a\":1,\"b\":2,\"c\":3}", "{1:2}", "{}")
+		case 3:
+			head = "[ i,j ] in [[1, 2], [3, 4]]"
+		default:
+			head = "i in l"
+		}
+		return g.kw("for") + " " + head + g.body(lc, 3)
+	case 15, 16: // try
+		var sb strings.Builder
+		sb.WriteString(g.kw("try") + g.body(c, 3))
+		for n := g.pick(3, "nexc"); n > 0; n-- {
+			sb.WriteString(g.oneOf("excsp", " ", "\n", " ") + g.kw("except") + " " +
+				g.oneOf("exc", "", "e ", "\"A\" ", "\"A\" as e ", "\"A\", \"B\" ", "\"A\", \"Operand is not a number\" as e ", "'A','B' as  e ", g.quote("A")+" ") +
+				"{\n" + g.oneOf("excb", "", g.ind(c.depth+1)+"t.rec(e.type)\n", g.ind(c.depth+1)+"t.rec(\"caught\")\n") + g.block(c, 2) + g.ind(c.depth) + "}")
+		}
+		if g.chance(3, "otherwise") {
+			sb.WriteString(" " + g.kw("otherwise") + g.body(c, 2))
+		}
+		if g.chance(3, "finally") {
+			sb.WriteString(" " + g.kw("finally") + g.body(c, 2))
+		}
+		return sb.String()
+	case 17: // named function + call
+		g.nfunc++
+		name := fmt.Sprintf("fn%d", g.nfunc)
+		fc := c
+		fc.inFunc, fc.inLoop = true, false
+		g.budget--
+		s := g.kw("func") + " " + name + g.blockCm("fname") + g.oneOf("fp", "(x)", "(x, y=2)", "( x, y = [1,2,3,4,5] )", "(x,y=\"d\",z=null)") + g.body(fc, 4)
+		g.funcs = append(g.funcs, name)
+		if g.chance(2, "callit") {
+			s += "\n" + g.ind(c.depth) + g.recStmt(&X{K: "call", A: []*X{{K: "id", S: name}, g.exprN(1)}})
+		}
+		return s
+	case 18: // anonymous function
+		g.nfunc++
+		name := fmt.Sprintf("af%d", g.nfunc)
+		s := name + " := " + g.funcLiteral(c)
+		if g.chance(2, "callaf") {
+			s += "\n" + g.ind(c.depth) + "t.rec(" + name + "(1, 2))"
+		}
+		return s
+	case 19: // mutex
+		return g.kw("mutex") + " " + g.oneOf("mx", "mx", "mtx2") + g.body(c, 3)
+	case 20:
+		if c.inLoop {
+			return g.oneOf("bc", "break", "continue", "BREAK")
+		}
+		if c.inFunc {
+			if g.chance(3, "retnone") {
+				return g.kw("return")
+			}
+			return g.kw("return") + " " + g.srcSameLine(g.exprAny(2))
+		}
+		return g.recStmt(g.exprB(3))
+	case 21:
+		if c.inFunc {
+			return g.kw("return") + " " + g.srcSameLine(g.exprAny(3))
+		}
+		return g.recStmt(g.exprN(4))
+	case 22: // raise
+		return "raise(" + g.oneOf("rs", "\"A\"", "\"B\", \"detail\"", "\"A\", \"d\", [1, 2]", "") + ")"
+	case 23: // import
+		if c.top && g.imports != nil {
+			return g.kw("import") + " " + g.oneOf("imp", "\"lib\"", "'lib'", "\"dir/lib2\"") + " " + g.kw("as") + " " + g.oneOf("impn", "lib", "lib2")
+		}
+		return g.recStmt(&X{K: "dot", S: "x", A: []*X{{K: "id", S: "lib"}}})
+	case 24: // sink
+		if c.top {
+			return g.sink(c)
+		}
+		return g.recStmt(g.exprS(2))
+	case 25: // bare expression statements
+		return g.src(g.exprAny(3))
+	case 26: // object style map with functions
+		g.nfunc++
+		return fmt.Sprintf("ob%d := {", g.nfunc) + g.tight("ob") + "\"v\" : " + g.src(g.exprN(1)) + g.oneOf("obsep", ", ", ",\n", "\n") +
+			g.leadCmMaybe() + "\"f\" : " + g.funcLiteral(c) + g.oneOf("obsep2", ", ", ",\n", "\n") + "\"w\" : " + g.src(g.exprAny(1)) + g.tight("ob1") + "}"
+	case 27:
+		return g.recStmt(g.exprS(3))
+	case 28:
+		return g.recStmt(g.exprB(4))
+	}
+	return g.recStmt(g.exprN(4))
+}
+
+func (g *pg) leadCmMaybe() string {
+	if g.cmRate != 0 && g.chance(3, "obcm") {
+		return "/* " + g.oneOf("obc", "doc", "\n doc\n two\n") + " */\n"
+	}
+	return ""
+}
+
+// srcGuard prints a guard expression: a map literal cannot occur there (the brace starts the block).
+func (g *pg) srcGuard(x *X) string {
+	stripMaps(x)
+	return g.src(x)
+}
+
+func stripMaps(x *X) {
+	for i, c := range x.A {
+		if c.K == "map" || c.K == "func" {
+			x.A[i] = &X{K: "null"}
+		} else {
+			stripMaps(c)
+		}
+	}
+	if x.K == "map" || x.K == "func" {
+		x.K, x.A, x.F = "null", nil, ""
+	}
+}
+
+// srcSameLine prints an expression whose first token must stay on the current line (return value).
+func (g *pg) srcSameLine(x *X) string {
+	var sb strings.Builder
+	g.write(&sb, x, true)
+	s := sb.String()
+	return s
+}
+
+func (g *pg) sink(c sctx) string {
+	g.nfunc++
+	attrs := []string{
+		g.kw("kindmatch") + " " + g.oneOf("km", "[\"a.b\"]", "[ \"a.*\", \"c\" ]", "[\"a\",\"b\",\"c\",\"d\",\"e\"]"),
+		g.kw("scopematch") + " " + g.oneOf("sm", "[]", "[\"data.read\"]", "[\"x\", \"y\"]"),
+		g.kw("statematch") + " " + g.oneOf("stm", "{}", "{\"a\" : 1}", "{\"a\":1,\"b\":NULL,\"c\":\"x\"}", "{ \"k\" : 1 + 2 }"),
+		g.kw("priority") + " " + g.oneOf("pr", "0", "10", "-1", "(1 + 2)"),
+		g.kw("suppresses") + " " + g.oneOf("sup", "[\"other\"]", "[]", "[\"s1\", \"s2\"]"),
+	}
+	// a drawn subset in a drawn order
+	var sb strings.Builder
+	sb.WriteString(g.kw("sink") + fmt.Sprintf(" sk%d", g.nfunc))
+	n := g.pick(6, "nattr")
+	perm := rapid.Permutation([]int{0, 1, 2, 3, 4}).Draw(g.rt, "attrperm")
+	for i := 0; i < n; i++ {
+		sb.WriteString(g.oneOf("atsep", "\n    ", " ", ",\n  ", "\n") + attrs[perm[i]])
+	}
+	sc := c
+	sc.inFunc, sc.inLoop = false, false
+	sb.WriteString(g.oneOf("skopen", "\n{\n", " {\n", "\n    {\n") + g.block(sc, 3) + "}")
+	return sb.String()
+}
+
+const progPrelude = "a := 1\nb := 2\nc := 3\ntt := true\nff := false\ns := \"str\"\nl := [1, 2, 3]\nm := {\"k\" : 1, \"o\" : {\"p\" : [1, {\"q\" : 2}]}}\no := {\"v\" : 5, \"f\" : func (x) {\n    return x + 1\n}}\n"
+
+var libs = map[string]string{
+	"lib":      "x := 1\nfunc f(a) {\n    return a + 1\n}\n",
+	"dir/lib2": "x := \"two\"\n",
+}
+
+func genProg(rt *rapid.T) Case {
+	g := &pg{rt: rt, budget: 6 + rapid.IntRange(0, 30).Draw(rt, "budget"), imports: libs,
+		noRaw: hx.KnownOpen("C08-raw-string-printed-quoted"), noTD: hx.KnownOpen("C08-times-div-brackets")}
+	switch g.pick(6, "noise") {
+	case 0:
+		g.plain = true
+	case 1, 2:
+		g.cmRate = 0
+	case 3:
+		g.cmRate = 40
+	case 4:
+		g.cmRate = 12
+	default:
+		g.cmRate = 80
+	}
+	var sb strings.Builder
+	if !g.plain && g.chance(4, "leadfile") {
+		sb.WriteString(g.leadCm())
+	}
+	sb.WriteString(progPrelude)
+	n := 1 + g.pick(8, "ntop")
+	c := sctx{top: true}
+	for i := 0; i < n && g.budget > 0; i++ {
+		sb.WriteString(g.stmt(c))
+		sb.WriteString(g.stmtSep())
+	}
+	src := sb.String()
+	if g.chance(3, "finalnl") {
+		src = strings.TrimRight(src, "\n ;\t")
+	}
+	return Case{Kind: "prog", Src: src, Exec: true, Imports: libs}
+}
+
+// genFiles draws a small file tree for the format tool.
+func genFiles(rt *rapid.T) Case {
+	n := rapid.IntRange(1, 4).Draw(rt, "nfiles")
+	c := Case{Kind: "files"}
+	for i := 0; i < n; i++ {
+		dir := rapid.SampledFrom([]string{"", "sub/", "sub/deep/", "a b/"}).Draw(rt, "dir")
+		name := fmt.Sprintf("f%d", i)
+		var content string
+		switch rapid.IntRange(0, 9).Draw(rt, "fkind") {
+		case 0: // does not parse: must stay untouched
+			content = rapid.SampledFrom([]string{"a := := 1\n", "if a {\n", "x := \"abc\n", ")", "", "   \n"}).Draw(rt, "bad")
+			name += ".ecal"
+		case 1: // another extension: must stay untouched
+			content = "a:=1;b:=2\n"
+			name += rapid.SampledFrom([]string{".txt", ".ecal.bak", ".ecalx", ""}).Draw(rt, "ext")
+		case 2:
+			content = rapid.SampledFrom(directed).Draw(rt, "directed")
+			name += ".ecal"
+		default:
+			content = genProg(rt).Src
+			name += ".ecal"
+		}
+		c.Files = append(c.Files, FileEnt{Path: dir + name, Content: content})
+	}
+	return c
+}
 
 func TestProp(t *testing.T) {
 	hx.Check(t, func(rt *rapid.T) Case {
-		return Case{Kind: "prog", Src: rapid.SampledFrom(directed).Draw(rt, "d")}
+		if rapid.IntRange(0, 11).Draw(rt, "mode") == 0 {
+			return genFiles(rt)
+		}
+		return genProg(rt)
 	}, runCase)
 }
